@@ -1061,7 +1061,7 @@ func TestC44(t *testing.T) {
 	c.Oracle("round trip through ReadMessage/CheckDetachedSignature with field-by-field expectations")
 	c.Oracle("tamper oracle: refpgp packet/field map decides which mutated bytes the MDC or the signature hash (RFC 4880 5.2.4) covers")
 	c.Oracle("refpgp.CanonText for NewCanonicalTextHash on texts without stray CR; split-invariance otherwise")
-	g := newGPG(p, ev.Scale(16, 220))
+	g := newGPG(p, ev.Scale(16, 400))
 	defer g.close()
 	gpgNote(c, g)
 	bufSizes := []int{1, 7, 21, 22, 23, 64, 512, 4096, 70000}
@@ -1136,7 +1136,7 @@ func TestC44(t *testing.T) {
 		if sh, serr := c44ShapeOfX(cs.op, out, true); serr != nil {
 			rt.Fatalf("VF-VIOLATION: property=C44 %v: output is not the expected packet sequence per RFC 4880 4.2: %v", cs.render(), serr)
 		} else {
-			nm := rapid.IntRange(0, 3).Draw(rt, "nmut")
+			nm := rapid.IntRange(0, ev.Scale(3, 10)).Draw(rt, "nmut")
 			for i := 0; i < nm; i++ {
 				var mut, msgMut []byte
 				var m gen.Mutation
